@@ -42,6 +42,7 @@ type monitor struct {
 	r       *mon.Run
 	aligned int
 
+	kinds  []consumer
 	gmu    sync.Mutex
 	groups map[groupKey]*group
 
@@ -71,6 +72,8 @@ func main() {
 		"plaintext lengths up to 6 chunks (400 000 bytes); unbounded sizes are not explored",
 		"the plaintext reader is consumed by Read loops with 8 buffer sizes, by io.Copy into a plain Writer (uses a WriteTo of the reader if there is one) and by io.ReadAll",
 		"a result that differs from the baseline under every delivery schedule it was run with is reported once with sched=* (the cause is then the consumption mode / buffer / handed-in bufio, not the schedule)",
+		"consumer kinds over armor.NewReader (bufio ReadByte/ReadString/Peek/WriteTo/Read, Scanner, ReadFull blocks, 1-byte CopyBuffer, iotest.OneByteReader) run under the schedules whole, 1byte, random, bufio16over1byte",
+		"age.Decrypt over armor is also compared with age.Decrypt over the bytes (and error) plain de-armoring releases",
 		"malformed armor texts are judged only for independence of delivery schedule and read size, never for whether they should be accepted (C08); no read-ahead bound is applied to them",
 		"delivery schedules are those of mon.Schedules() (never (0,nil) reads, never transient source errors) plus two counted bufio schedules",
 		"ssh-rsa recipients are left out of the encryption sweep: crypto/rsa draws a data-independent random number of tape bytes (randutil.MaybeReadByte)",
@@ -85,7 +88,7 @@ func main() {
 	} else {
 		r.Set("reference_self_check_vectors", nv)
 	}
-	m := &monitor{r: r, groups: map[groupKey]*group{}}
+	m := &monitor{r: r, groups: map[groupKey]*group{}, kinds: consumers()}
 
 	// Serial phase: everything that encrypts runs under the process-global tap.
 	t0 := time.Now()
@@ -113,6 +116,20 @@ func main() {
 		"armor.NewReader/bulk/small-read", "armor.NewReader/bulk/large-read", "age.Decrypt/trickled", "age.Decrypt/bulk"} {
 		if r.Counter("malformed_armor_runs/"+k) == 0 {
 			r.Inconclusive("no malformed-armor text was exercised as %s", k)
+		}
+	}
+	// vacuity guard for the leading-white-space family: files with >= 100
+	// blank lines before BEGIN must have met a plain consumer, age.Decrypt and
+	// every consumer that goes through a bufio fill loop
+	need := []string{"plain-Read-loop", "age.Decrypt", "decrypt-vs-dearmored"}
+	for _, c := range m.kinds {
+		if c.fill {
+			need = append(need, c.name)
+		}
+	}
+	for _, k := range need {
+		if r.Counter("lead100_runs/"+k) == 0 {
+			r.Inconclusive("no armored file with >= 100 leading blank lines was consumed by %s", k)
 		}
 	}
 	if m.binding.Load() == 0 {
